@@ -87,6 +87,12 @@ for d in sorted(os.listdir(root)):
         m['strengthening']=strength3[prop]
     elif rnd==3:
         m['missed_by_first_version']=False
+    if rnd>=4:
+        sx=json.load(open('/verif/seeded/strengthening_r4_r6.json')).get(d)
+        if sx:
+            m['missed_by_first_version']=sx['missed_by_first_version']
+            m['first_result']=sx['first']; m['result_now']=sx['now']
+            if sx['strengthening']: m['strengthening']=sx['strengthening']
     if os.path.exists(p+'/hunt_findings.json'):
         m['hunt_findings_file']='hunt_findings.json (candidates reported by the same sub-agent for the unchanged tree; see DESIGN 12.8 for what became of each)'
     if os.path.exists(p+'/patch_as_written.diff'):
